@@ -763,7 +763,16 @@ fn judge(c: &Case, o: &Outcome) -> Result<String, Fail> {
             if let Some(cl) = v["class"].as_str() {
                 Ok(cl.to_string())
             } else {
-                Err(Fail::new(v["sig"].as_str().unwrap_or("?").to_string(), format!("{} (input {} bytes)", v["msg"].as_str().unwrap_or(""), v["len"])))
+                // engine::guard yields `panic@<format>:<file>:<message>`; the root cause is the panic site,
+                // not the entry point, so the signature leads with the site: `panic:<file>:<message>@<format>`
+                // (one known-finding entry `panic:dep:<crate>/*` then covers a dependency that panics on
+                // untrusted data whatever the entry point)
+                let raw = v["sig"].as_str().unwrap_or("?");
+                let sig = match raw.strip_prefix("panic@").and_then(|r| r.split_once(':')) {
+                    Some((fmt, site)) => format!("panic:{site}@{fmt}"),
+                    None => raw.to_string(),
+                };
+                Err(Fail::new(sig, format!("{} (input {} bytes)", v["msg"].as_str().unwrap_or(""), v["len"])))
             }
         }
         Outcome::Died { how, stderr_tail } => {
